@@ -12,6 +12,7 @@ import (
 	"github.com/DOSNetwork/core/log"
 	"github.com/DOSNetwork/core/suites"
 	"github.com/dedis/kyber"
+	"github.com/dedis/kyber/sign/schnorr"
 
 	"verifharness/internal/h"
 )
@@ -139,4 +140,13 @@ func Commit(coeffs []*big.Int) []kyber.Point {
 		out[i] = Pub(Scalar(c))
 	}
 	return out
+}
+
+// SchnorrSign signs msg with sk (kyber sign/schnorr over the bn256 suite).
+func SchnorrSign(sk kyber.Scalar, msg []byte) []byte {
+	sig, err := schnorr.Sign(Suite, sk, msg)
+	if err != nil {
+		panic(err)
+	}
+	return sig
 }
